@@ -486,3 +486,46 @@ func Sleep(d time.Duration) {
 func NumCPU() int { return 1 + int((step.Seed>>8)%16) }
 
 func GOMAXPROCS(n int) int { return NumCPU() }
+
+// ErrGroup replaces golang.org/x/sync/errgroup.Group (without context).
+type ErrGroup struct {
+	wg      WaitGroup
+	err     error
+	limit   int
+	active  int
+	waiters []*task
+}
+
+func (g *ErrGroup) SetLimit(n int) { g.limit = n }
+
+func (g *ErrGroup) Go(f func() error) {
+	for g.limit > 0 && g.active >= g.limit {
+		g.waiters = append(g.waiters, cur)
+		block()
+	}
+	g.active++
+	g.wg.Add(1)
+	spawn(func() {
+		defer func() {
+			g.active--
+			wakeAll(&g.waiters)
+			g.wg.Done()
+		}()
+		if err := f(); err != nil && g.err == nil {
+			g.err = err
+		}
+	})
+}
+
+func (g *ErrGroup) TryGo(f func() error) bool {
+	if g.limit > 0 && g.active >= g.limit {
+		return false
+	}
+	g.Go(f)
+	return true
+}
+
+func (g *ErrGroup) Wait() error {
+	g.wg.Wait()
+	return g.err
+}
